@@ -334,3 +334,47 @@ func UpParamVia(root *ssa.Function, s Site, v ssa.Value) ssa.Value {
 	}
 	return v
 }
+
+// ThroughHelperValue is ThroughHelper for helpers with several returns of which all but one hand back a constant (nil, false,
+// 0 - the "nothing to do" exits): the value of the one informative return.
+func ThroughHelperValue(v ssa.Value) ssa.Value {
+	for d := 0; d < maxInlineDepth; d++ {
+		idx := 0
+		cv := unwrap(v)
+		if e, ok := cv.(*ssa.Extract); ok {
+			idx = e.Index
+			cv = e.Tuple
+		}
+		cl, ok := cv.(*ssa.Call)
+		if !ok {
+			return v
+		}
+		g := TransparentCallee(cl)
+		if g == nil {
+			return v
+		}
+		var r ssa.Value
+		for _, ret := range returnsOf(g) {
+			if idx >= len(ret.Results) {
+				return v
+			}
+			x := ret.Results[idx]
+			if srcs := resolveLocal(x); len(srcs) == 1 {
+				x = srcs[0]
+			}
+			if _, isConst := x.(*ssa.Const); isConst {
+				continue
+			}
+			if r == nil {
+				r = x
+			} else if r != x {
+				return v
+			}
+		}
+		if r == nil {
+			return v
+		}
+		v = r
+	}
+	return v
+}
